@@ -166,6 +166,32 @@ def _random_scenario(rng, digital_rf, root, name):
     return drv.run_history(digital_rf, root, files, base, limits, initial, hist, name)
 
 
+def _long_scenario(rng, digital_rf, root, name, kind):
+    """one channel over a long time: kind "deep" - more than forty tracked files and repeated reports of files far behind the
+    newest one; kind "churn" - a size limit that holds ten files while a hundred and forty come and go"""
+    files = [dict(ch="ch0", kind="drfprop")]
+    cad = 1000
+    start = BASE_MS + rng.randrange(0, 10**9) // cad * cad
+    nfile = 46 if kind == "deep" else 142
+    for t in range(nfile):
+        files.append(dict(ch="ch0", kind="rf", t_ms=start + t * cad))
+    data_ids = list(range(2, nfile + 2))
+    sz = 100
+    limits = dict(count=44) if kind == "deep" else dict(size=10 * sz)
+    initial = [(1, 64)]
+    hist = []
+    for k, f in enumerate(data_ids):
+        hist.append(dict(a="FsWrite", f=f, sz=sz))
+        hist.append(dict(a="EvCreated", f=f))
+        if kind == "deep" and k >= 36 and k % 3 == 0:
+            # a file far behind the newest is reported again (a duplicate event, a re-scan)
+            old = data_ids[rng.randint(0, 3)]
+            hist.append(dict(a="EvCreated", f=old) if rng.random() < 0.5 else dict(a="AddBatch", S=[old]))
+        if kind == "churn" and k % 37 == 5:
+            hist.append(dict(a="Verify"))
+    return drv.run_history(digital_rf, root, files, start, limits, initial, hist, name)
+
+
 def run(ctx):
     q = ctx.quick
     # ---- E1 -----------------------------------------------------------------
@@ -224,6 +250,9 @@ def run(ctx):
     nrand = ctx.pick(250, 6000)
     for i in range(nrand):
         scen.append(_random_scenario(ctx.rng, digital_rf, os.path.join(ctx.work, "rb", "t"), "rand%d" % i))
+    # two long histories of one channel: many tracked files with repeated reports of old ones; a hundred and more removals
+    for kind in ("deep", "churn"):
+        scen.append(_long_scenario(ctx.rng, digital_rf, os.path.join(ctx.work, "rb", "t"), "long-" + kind, kind))
     ctx.evaluations = sum(len(s["events"]) for s in scen)
     ctx.extra.update(
         spec_behaviours_replayed=nsim,
